@@ -357,6 +357,11 @@ def tail_find_call(ctx, f):
     it = strip_refs(call_args(f)[0])
     while isinstance(it, tuple) and it and it[0] == "loc" and len(it) > 2:
         it = strip_refs(it[2])
+    if is_call(it, "Iterator::copied", "Iterator::cloned") and len(call_args(it)) == 1:
+        # .iter().copied(): the same elements by value
+        it = strip_refs(call_args(it)[0])
+        while isinstance(it, tuple) and it and it[0] == "loc" and len(it) > 2:
+            it = strip_refs(it[2])
     skipped = None
     if is_call(it, "Iterator::skip") and len(call_args(it)) == 2:
         # version.iter().skip(n): the tail from min(n, len) on (skipping past the end leaves nothing, it does not fail)
